@@ -85,6 +85,7 @@ class KernelEval:
         self.accs: Dict[str, Acc] = {}
         self.grid_vars: List[str] = []
         self.extents: Dict[str, str] = {}    # num_edges -> edge_centers.shape[0]
+        self.array_names: Dict[str, str] = {}    # parameter of a helper -> array name in the kernel that called it
 
     # -- expressions ------------------------------------------------------------
     def idx_text(self, e: ast.expr) -> str:
@@ -108,9 +109,13 @@ class KernelEval:
         if name in self.alias:
             # alias like Jx = current_densities[:, 0]  -> Jx[k] == current_densities[k, 0]
             arr, pat = self.alias[name]
-            it = iter(texts)
-            full = [next(it) if p == ":" else p for p in pat]
-            name, texts = arr, full
+            if pat is None:              # the same array under the parameter name of a helper
+                name = arr
+            else:
+                it = iter(texts)
+                full = [next(it) if p == ":" else p for p in pat]
+                name, texts = arr, full
+        name = self.array_names.get(name, name)
         return self.T.real(f"{name}[{','.join(texts)}]")
 
     def ev(self, e: ast.expr) -> Rat:
@@ -165,6 +170,8 @@ class KernelEval:
         if isinstance(e, ast.Call):
             f = e.func
             name = f.attr if isinstance(f, ast.Attribute) else getattr(f, "id", "")
+            if isinstance(f, ast.Name) and self.helper(name) is not None and not e.keywords:
+                return self.call_helper(self.helper(name), e)
             if name == "sqrt" and len(e.args) == 1:
                 try:
                     return T.sqrt_of(self.ev(e.args[0]))
@@ -172,6 +179,50 @@ class KernelEval:
                     raise KernelError(f"sqrt: {er}")
             raise KernelError(f"call {norm(e)} outside the kernel fragment")
         raise KernelError(f"expression {norm(e)} outside the kernel fragment")
+
+    # -- compiled helpers of the same module (a kernel whose inner sum was moved into a second @njit function) -------------------
+    def helper(self, name):
+        tree = getattr(self.fn, "_module_tree", None) or getattr(self, "_tree", None)
+        if tree is None:
+            return None
+        for st in tree.body:
+            if isinstance(st, ast.FunctionDef) and st.name == name and st is not self.fn and any(
+                    "jit" in norm(d) for d in st.decorator_list):
+                return st
+        return None
+
+    def call_helper(self, h: ast.FunctionDef, e: ast.Call) -> Rat:
+        params = [a.arg for a in h.args.args]
+        if len(params) != len(e.args) or getattr(self, "_depth", 0) > 3:
+            raise KernelError(f"call {norm(e)}: cannot bind the helper's parameters")
+        sub = KernelEval(self.T, h, None)
+        sub._tree = getattr(self.fn, "_module_tree", None) or getattr(self, "_tree", None)
+        sub._depth = getattr(self, "_depth", 0) + 1
+        sub.loops = list(self.loops)
+        sub.all_loops = self.all_loops if hasattr(self, "all_loops") else []
+        sub.summary = self.summary
+        for p, a in zip(params, e.args):
+            if isinstance(a, ast.Name) and a.id in self.ren:
+                sub.ren[p] = self.ren[a.id]                       # a loop index of the caller
+            elif isinstance(a, ast.Name) and a.id in self.alias:
+                sub.alias[p] = self.alias[a.id]
+            elif isinstance(a, ast.Name) and a.id not in self.env and a.id not in self.accs:
+                if a.id != p:
+                    sub.alias[p] = (self.array_names.get(a.id, a.id), None)     # an array parameter under another name
+                sub.array_names[p] = self.array_names.get(a.id, a.id)
+            else:
+                sub.env[p] = self.ev(a)
+        ret = None
+        for st in h.body:
+            if isinstance(st, ast.Return):
+                if st.value is None:
+                    raise KernelError(f"helper {h.name} returns nothing")
+                ret = sub.ev(st.value)
+                break
+            sub.stmt(st)
+        if ret is None:
+            raise KernelError(f"helper {h.name} has no top-level return")
+        return ret
 
     def const_exp(self, e: ast.expr):
         try:
@@ -306,10 +357,15 @@ class KernelEval:
     def extent_text(self, e: ast.expr) -> str:
         # len(x) == x.shape[0]
         if isinstance(e, ast.Call) and getattr(e.func, "id", "") == "len" and len(e.args) == 1:
-            return f"{norm(e.args[0])}.shape[0]"
+            a0 = norm(e.args[0])
+            return f"{self.array_names.get(a0, a0)}.shape[0]"
         if isinstance(e, ast.Name) and e.id in self.extents:
             return self.extents[e.id]
-        return norm(e)
+        t = norm(e)
+        head = t.split(".")[0]
+        if head in self.array_names:                 # inside a helper: the array under the caller's name
+            t = self.array_names[head] + t[len(head):]
+        return t
 
 
 def summarise(T: AtomTable, fn: ast.FunctionDef) -> Summary:
